@@ -83,3 +83,18 @@ package weighted_sum
 //@   property C15 C07 C16 C18 C19
 //@   requires wParams.weightedCriteria != nil
 //@   ensures [weight_times_value] exists k int :: 0 <= k && k < len(*wParams.weightedCriteria) && (*wParams.weightedCriteria)[k].Id == criterion && result == (*wParams.weightedCriteria)[k].Weight * value
+
+// the parsed parameters: every declared criterion, in declared order, with the weight the request gives it
+//@ func (*WeightedSumPreferenceFunc).ParseParams
+//@   property C03 C20 C07
+//@   ensures [declared_criteria_with_their_weights] typeis(result, weightedSumParams) && result.(weightedSumParams).weightedCriteria != nil
+//@             && len(*result.(weightedSumParams).weightedCriteria) == len(dm.Criteria)
+//@             && forall i int :: 0 <= i && i < len(dm.Criteria) ==> (*result.(weightedSumParams).weightedCriteria)[i].Criterion == dm.Criteria[i]
+//@ func (*WeightedSumPreferenceFunc).Identifier
+//@   property C20
+//@   nopanic
+//@   ensures [name] result == "weightedSum"
+//@ func (*WeightedSumPreferenceFunc).MethodParameters
+//@   property C20
+//@   nopanic
+//@   ensures [schema_of_the_weights_parameter] typeis(result, model.WeightType)
